@@ -19,11 +19,15 @@ for d in sorted(glob.glob(str(root / "seeded" / "C*-*")), key=k):
     need = str(m.get("needs_to_manifest", "")).replace("|", "\\|").replace("\n", " ")[:260]
     rows.append(f"| {pathlib.Path(d).name} | {m['property']} | {need} | {res} |")
 seeded = "\n".join(rows)
+notes = []
+for f in sorted((root / "design_notes").glob("C*.md")):
+    notes.append(f.read_text().strip())
+asbuilt = "\n\n".join(notes)
 p = root / "DESIGN.md"
 s = p.read_text()
-for tag, body in (("findings", findings), ("seeded", seeded)):
+for tag, body in (("findings", findings), ("seeded", seeded), ("asbuilt", asbuilt)):
     pat = re.compile(rf"(<!-- BEGIN {tag} -->).*?(<!-- END {tag} -->)", re.S)
     assert pat.search(s), tag
-    s = pat.sub(lambda mm: mm.group(1) + "\n" + body + "\n" + mm.group(2), s)
+    s = pat.sub(lambda mm, body=body: mm.group(1) + "\n" + body + "\n" + mm.group(2), s)
 p.write_text(s)
 print("DESIGN.md tables regenerated")
